@@ -29,7 +29,7 @@ func stubProvider(*cluster.Cluster) actor.Producer {
 var c18Universe = map[byte]*cluster.Member{
 	'A': {ID: "A", Host: "local", Kinds: []string{"k1"}, Region: "default"},
 	'B': {ID: "B", Host: "hostB:4000", Kinds: []string{"k1", "k2"}, Region: "default"},
-	'C': {ID: "C", Host: "hostC:4000", Kinds: []string{"k3"}, Region: "default"},
+	'C': {ID: "C", Host: "hostC:4000", Kinds: []string{"k2", "k3"}, Region: "default"}, // shares k2 with B: a kind no local member has
 	'D': {ID: "D", Host: "hostD:4000", Kinds: nil, Region: "default"},
 }
 
